@@ -53,6 +53,37 @@ class NS(object):
     def __repr__(self):
         return "<NS>"
 
+    def __getattr__(self, name):
+        """Missing attribute: if a real method is running with this fake as `self` and its class defines
+        `name` (a helper method, property or class constant — e.g. after a refactor extracted one), serve it
+        from that class.  Keeps harnesses that drive unbound methods on a fake self from breaking on
+        behaviour-preserving restructurings of the class."""
+        if name.startswith("__"):
+            raise AttributeError(name)
+        f = sys._getframe(1)
+        depth = 0
+        while f is not None and depth < 8:
+            qn = getattr(f.f_code, "co_qualname", f.f_code.co_name)
+            head = qn.split(".")[0]
+            if "." in qn and head != "<locals>" and f.f_locals.get("self") is self:
+                cls = f.f_globals.get(head)
+                if isinstance(cls, type):
+                    for klass in cls.__mro__:
+                        if name in klass.__dict__:
+                            attr = klass.__dict__[name]
+                            if isinstance(attr, types.FunctionType):
+                                return types.MethodType(attr, self)
+                            if isinstance(attr, staticmethod):
+                                return attr.__func__
+                            if isinstance(attr, classmethod):
+                                return types.MethodType(attr.__func__, cls)
+                            if isinstance(attr, property):
+                                return attr.fget(self)
+                            return attr
+            f = f.f_back
+            depth += 1
+        raise AttributeError("'NS' object has no attribute %r" % (name,))
+
 
 NOTES = []      # free-text environment notes (stubs installed), reported in evidence
 CUTS = []       # source statements removed by strip_logs: dicts(file, line, src)
@@ -223,6 +254,11 @@ def strip_logs(fn, drop_decorators=("log_call_deferred",), extra_globals=None, c
     new = ns[fdef.name]
     new.__qualname__ = raw.__qualname__
     new.__module__ = raw.__module__
+    try:
+        # keep the class-qualified name on the code object too (NS.__getattr__ finds the owning class by it)
+        new.__code__ = new.__code__.replace(co_qualname=raw.__qualname__)
+    except (TypeError, ValueError):
+        pass
     return new
 
 
